@@ -1,2 +1,3 @@
+@property
 def spec(self):
     return self.__prehook_handle is not None or self.__posthook_handle is not None
